@@ -37,6 +37,10 @@ CHECKS.update({
  "C03": dict(cat="model_checking", text="CorrTests.tla: binary derivative k in {3,7,15}, autocorrelation d in {1,2,8,16,32}, cumulative sums forward/backward; exhaustive at 8..11 (13) bits, generator sequences 100..20000 bits incl. extreme excursions, 10^6-bit inputs via TLC-judged summaries; series limits modelled with Go's truncating division.", ref="4 C03", note=STAT_NOTE + "; cusum series limits follow the truncating integer division of the reference implementations", tech=STAT_TECH),
  "C04": dict(cat="model_checking", text="AlgTests.tla: rowEchelon as written = log2|row space| for every matrix sequence at M=2,3(,4); Berlekamp-Massey as written with Go array bounds = brute-force least recurrence for every block of m=4..10(12) plus the InBounds invariant (negative control: CAP=m violates); 32x32 matrices of every rank and m=500/1000/5000 blocks of known complexity through TLC-validated lemmas; Maurer table machine = definitional distances; 10^6-bit inputs via independent proxies judged by TLC. Any panic of an entry point is a violation.", ref="4 C04", note=STAT_NOTE + "; rank/LC lemmas are checked by TLC only at small sizes", tech=STAT_TECH),
 })
+CHECKS.update({
+ "C05": dict(cat="model_checking", text="Spectral.tla defines the spectrum of the zero-extended +-1 sequence exactly (60-digit cos/sin) and counts N1 over the first n/2-1 bins with an explicit undecided band of relative 1e-9 around the threshold; every bit sequence of 2..10 (12) bits and generator sequences up to 257 (512) bits (n just above a power of two, periodic, constant) are replayed against it; periodic words lifted to 2^10..2^20 bits by a TLC-checked lifting lemma; seeded inputs up to 10^6 bits through an independent FFT proxy judged by TLC.", ref="4 C05", note=STAT_NOTE + "; n > 512 relies on an independent float64 FFT in the driver, cross-checked on every small vector", tech=STAT_TECH),
+ "C19": dict(cat="model_checking", text="The radix-2 FFT of fft.go is transcribed loop by loop over the cyclotomic integers and model-checked equal to the DFT definition on the impulse basis for N=2..64 (128) (complete by linearity; wrong twiddle indices are negative controls), Inverse inverts, lastPow2/ceilPow2 against their definitions for all N<=5000 and around every 2^k<=2^27. The real package is bound by exact spectra of integer inputs (N<=64), TLC-judged sampled bins of impulse/tone families up to 2^14 (2^20), inverse round trips, constructor limits and the wrong-length refusal.", ref="4 C19", note="transforms above 2^20 points are not executed; tolerance 1e-9*||x||; trusts RealFn cos/sin", tech="TLA+ exact-arithmetic model of the FFT (Spectral/GenSpectral) model-checked by TLC; TLC-generated spectra replayed into Go; recorded transforms validated by TLC (TraceSpectral)"),
+})
 PENDING = {}
 
 def main():
